@@ -138,7 +138,10 @@ pub trait MaybeDynSized: Pointee {
 //@  novis
 //@  ret r
 //@  spec:
-//@        requires panics_allowed() || Self::dst_len_ok(header),
+//@        requires
+//@            // the header belongs to a well-formed structure (what `cast` and `new_boxed` pass)
+//@            header.declared_total() >= size_of::<Self::Header>(),
+//@            panics_allowed() || Self::dst_len_ok(header),
 //@        ensures Self::dst_len_ok(header), r == Self::dst_len_spec(header)
 //@end
 
